@@ -1539,6 +1539,7 @@ func propC16(c *Ctx) {
 				Desc: "EapAkaPrimePRF differs from the RFC 5448 / 9048 key hierarchy" + map[bool]string{true: " (call made right after a call with related arguments: " + derived + "; replay: re-run of the suite with this seed)", false: ""}[derived != ""], Input: line, Expected: want, Actual: clip(r.String())})
 		}
 	}
+	c.c16ManyCalls(g)
 	sc := c.suite("aka-prf-model-vs-impl", "correspondence",
 		"lines akaprf (Lean transliteration) and spec-akaprf (Lean RFC transcription) for the oracle cases (thorough: 1 in 8 plus all refused inputs); Go outcome = Lean driver line; non-trivial = both keys non-empty")
 	c.correspond(sc, corr)
